@@ -231,3 +231,40 @@ theorem contrib_hinge (f : Nat) (thr : α) (left : Bool) (tables : List (Vec α)
     · rfl
 
 end NanoVerif.WLearner
+
+namespace NanoVerif.WLearner
+variable {α : Type} [Field α] [LinearOrder α] [IsStrictOrderedRing α]
+
+/-! ### whole fits: the candidates of all features, in the order one thread tries them -/
+
+/-- a sample that has the value `v` for feature `f` (the other features do not matter to a single-feature learner) -/
+def sampleOf (f : Nat) (v : FVal α) : Nat → FVal α := fun g => if g = f then v else FVal.missing
+
+theorem sampleOf_self (f : Nat) (v : FVal α) : sampleOf f v f = v := by simp [sampleOf]
+
+/-- the RSS of a fitted learner's predictions (`predict` from zero outputs) over the rows of feature `f` -/
+def predRss (T : Nat) (l : Learner α) (f : Nat) (rows : List (Row α)) : α :=
+  lsum (rows.map fun row => sqErr T row.r (predictOne l (sampleOf f (numVal row.x)) zeroV))
+
+def predRssC (T : Nat) (l : Learner α) (f : Nat) (rows : List (CRow α)) : α :=
+  lsum (rows.map fun row => sqErr T row.r (predictOne l (sampleOf f (clsVal row.h)) zeroV))
+
+theorem predictOne_zero (l : Learner α) (s : Nat → FVal α) (o : Nat) : predictOne l s zeroV o = contrib l s o := by
+  rw [predictOne_eq]; simp [zeroV]
+
+def stumpAll [Log α] (sort : List (Item α) → List (Item α)) (T : Nat) (K : α) (cols : List (Nat × List (Row α))) :
+    List (Cand α) := cols.flatMap fun p => stumpCands sort T K Crit.rss p.1 p.2
+
+def hingeAll [Log α] (sort : List (Item α) → List (Item α)) (T : Nat) (K : α) (cols : List (Nat × List (Row α))) :
+    List (Cand α) := cols.flatMap fun p => hingeFeatureCands sort T K Crit.rss p.1 p.2
+
+def affineAll [Log α] (eps1 : α) (T : Nat) (K : α) (cols : List (Nat × List (Row α))) : List (Cand α) :=
+  cols.map fun p => affineCand eps1 T K Crit.rss p.1 p.2
+
+def denseAll [Log α] (T : Nat) (K : α) (cols : List (Nat × List (CRow α))) : List (Cand α) :=
+  cols.map fun p => denseCand T K Crit.rss p.1 p.2
+
+def dstepAll [Log α] (T : Nat) (K : α) (cols : List (Nat × List (CRow α))) : List (Cand α) :=
+  cols.flatMap fun p => (dstepCand T K Crit.rss p.1 p.2).toList
+
+end NanoVerif.WLearner
